@@ -42,7 +42,9 @@ FRACTIONS = ['1.0', '1', '0.5', '.5', '2', '0.25', '1e-3', '1E-3', '3.5e-2',
 SUFFIXES = ['', '', '.70c', '.80c', '.31c', '.00c', '.50d']
 KEYWORDS = ['nlib=70c', 'gas=1', 'estep=10', 'plib=04p', 'cond=1', 'hlib=24h',
             # the equals sign is a blank to MCNP
-            'nlib = 70c', 'gas =1', 'estep= 10']
+            'nlib = 70c', 'gas =1', 'estep= 10',
+            # MCNP6 optical keywords: one, four and six values
+            'refi=1.33', 'refc=1.32 0.0031 0 0', 'refs=0.7 0.4 0.9 0.0046 0.014 97.9']
 
 
 @st.composite
